@@ -58,7 +58,40 @@ func genC09(t *rapid.T) c09Case {
 			s["volumes_from"] = []any{"container:outside:ro"}
 		}
 	}
+	// profiles on services nothing refers to: the rendering of a project with profile-disabled services is
+	// still a valid, equivalent compose file for the enabled part
+	referenced := map[string]bool{}
+	for _, n := range sortedKeys(svcs) {
+		s := svcs[n].(map[string]any)
+		if d, ok := s["depends_on"].(map[string]any); ok {
+			for k := range d {
+				referenced[k] = true
+			}
+		}
+		for _, k := range []string{"links", "volumes_from"} {
+			for _, e := range anyList(s[k]) {
+				if str, ok := e.(string); ok {
+					referenced[strings.SplitN(str, ":", 2)[0]] = true
+				}
+			}
+		}
+		for _, k := range []string{"network_mode", "ipc", "pid"} {
+			if str, ok := s[k].(string); ok && strings.HasPrefix(str, "service:") {
+				referenced[strings.TrimPrefix(str, "service:")] = true
+			}
+		}
+	}
+	profiled := false
+	for _, n := range sortedKeys(svcs) {
+		if !referenced[n] && len(svcs) > 1 && rapid.IntRange(0, 3).Draw(t, "profiled") == 0 {
+			svcs[n].(map[string]any)["profiles"] = []any{"extra"}
+			profiled = true
+		}
+	}
 	o := loadOpts{}
+	if profiled && rapid.Bool().Draw(t, "profile-active") {
+		o.Profiles = []string{"extra"}
+	}
 	switch rapid.IntRange(0, 3).Draw(t, "opts") {
 	case 1:
 		o.SkipNormalization = true
@@ -317,6 +350,11 @@ func c09Check(c *Ctx, cs c09Case) *Failure {
 	a, b := snapshotProject(p), snapshotProject(q)
 	a.ComposeFiles, b.ComposeFiles = nil, nil
 	a.Environment, b.Environment = nil, nil
+	if len(a.DisabledServices) > 0 {
+		// the rendering is the enabled part of the project
+		c.Label("profile-disabled-services")
+		a.DisabledServices, b.DisabledServices = nil, nil
+	}
 	if cs.JSON {
 		stripNestedExtensions(reflect.ValueOf(a), 0)
 		stripNestedExtensions(reflect.ValueOf(b), 0)
